@@ -128,6 +128,10 @@ fn private_is_dirty(
                         // files change from targets to sources as a project evolves.
                         log_debug!("{}  converted target -> source {:?}", depth, f.id());
                         f.is_generated = false;
+                        // ...and with it that the (vanished) file had been edited by hand:
+                        // a record that is "overridden" but no target is never repaired by
+                        // start_self, so a file created there later stays dirty for ever.
+                        f.is_override = false;
                         f.failed_runid = Some(0);
                         f.save(ptx)?;
                         f.refresh(ptx)?;
